@@ -65,13 +65,9 @@ def run(ctx):
     from . import c14
     from .common import RemapCtx, child_record_rules
     c14.d1_inserts(RemapCtx(ctx, {'C14-D1': 'C01-D1'}))
-    # the queue insert takes its key from the url string table by the URL text
-    am = repo.func(SQL + ':BaseSQLURLTable.add_many')
-    txt_am = ' '.join(norm_text(s) for s in walk_no_nested(am.node) if isinstance(s, ast.Assign))
-    okk = "bind_values['url_string_id'] = select([URLString.id]).where(URLString.url == bindparam('url'))" in txt_am \
-        and "URLString.add_urls(session, url_strings)" in ' '.join(norm_text(c) for c in U.calls(am.node))
-    ck.expect(okk, 'C01-D1', am.qual, 'queue row keyed by the id of the (unique) URL string',
-              'add_many no longer keys the queue row by the URL string id', am.loc())
+    # the queue insert takes its key from the url string table by the URL text (shared with C14)
+    c14.d3_add_many(RemapCtx(ctx, {'C14-D2': 'C01-D1', 'C14-D3': 'C01-D1'}))
+    c14.d2_add_urls(RemapCtx(ctx, {'C14-D2': 'C01-D1'}))
 
     # ------------------------------------------------------------------ D2
     PARSERS = {'parse', 'parse_url_or_log', 'parse_url', 'rewrite_url', 'rewrite'}
@@ -357,7 +353,12 @@ def run(ctx):
             okd = okd and any(e == 'item_session.skip()' for e in o.effects)
     ck.expect(okd, 'C01-D5', dp.qual, 'no processor for the scheme -> skip()', 'URLs of unhandled schemes are left in progress', dp.loc())
     fp = repo.func(FTPS + '.process')
-    okf = any(isinstance(i, ast.If) and norm_text(i.test) == 'not verdict' and [norm_text(b) for b in i.body] == ['self._item_session.skip()', 'return'] for i in walk_no_nested(fp.node))
+    okf = False
+    for i in walk_no_nested(fp.node):
+        b_ = {}
+        if isinstance(i, ast.If) and U.like(i.test, 'not L_v', b_) and [norm_text(b) for b in i.body] == ['self._item_session.skip()', 'return']:
+            d_ = U.local_defs(fp.node).get(b_['L_v'], [])
+            okf = okf or any(v is not None and 'check_ftp_request' in norm_text(v) for v, k_, s_ in d_)
     ck.expect(okf, 'C01-D5', fp.qual, 'rejected FTP item -> skip()', 'a rejected FTP item is left without a status', fp.loc())
     pt = repo.func('wpull.application.tasks.download:ProcessTask.process')
     ck.expect(any(isinstance(a, ast.Assert) and norm_text(a.test) == 'session.is_processed' for a in walk_no_nested(pt.node)), 'C01-D5', pt.qual,
